@@ -34,6 +34,7 @@ CFGS = [
     dict(name='pump-speed', H=3600, dur=3600, controls=[dict(kind='base_speed', target='PP', value='sym')]),
     dict(name='dead-end-closed', H=3600, dur=2 * 3600, dead_end=True, controls=[dict(kind='status', target='P4', value=0)]),
     dict(name='report-finer-than-H', H=3600, report=1200, dur=3600, controls=[dict(kind='status', target='P2', value=0)]),
+    dict(name='report-not-a-multiple-of-H', H=3600, report=5400, dur=2 * 3600, controls=[dict(kind='status', target='P2', value=0)]),
     dict(name='tank-leak', H=3600, dur=3600, controls=[dict(kind='leak', target='T'), dict(kind='status', target='P3', value=0)]),
 ]
 
